@@ -57,6 +57,7 @@ def words(db, f):
 
 
 def run(db, chk):
+    line_splitter_agreement(db, chk)
     # (1) Time::size ladder
     ts = db.one(r"^gix_date::time::write::<impl gix_date::Time>::size$")
     try:
@@ -135,3 +136,29 @@ def run(db, chk):
     body = w.calls_to(r"WriteTo::write_to$")
     ok = len(hdr) == 1 and len(body) == 1 and fl3.root_vars(hdr[0].args[0]) == fl3.root_vars(body[0].args[0]) and w.dominates(hdr[0].block, body[0].block)
     chk.ob("header-from-own-size", "loose::Store::write", ok, "header and body must come from the same object, header first", "%s:%d" % (w.file, w.line), key="header-from-own-size|write")
+
+
+def line_splitter_agreement(db, chk):
+    """size() and write_to() walk multi-line values (extra headers) with the same line-splitting routine: bstr's `lines()` drops `\\r\\n`, `lines_with_terminator()`
+    keeps it, `split(b'\\n')` yields a trailing empty piece - if the counting side and the writing side use different ones, the declared size is off for
+    exactly the values on which they differ."""
+    import re
+    from gx.unw import SPLIT_FAMILY
+    pairs = [("Commit", r"^gix_object::commit::write::<impl gix_object::traits::WriteTo for gix_object::Commit>::"),
+             ("CommitRef", r"^gix_object::commit::write::<impl gix_object::traits::WriteTo for gix_object::CommitRef<'_>>::"),
+             ("Tag", r"^gix_object::tag::write::<impl gix_object::traits::WriteTo for gix_object::Tag>::"),
+             ("TagRef", r"^gix_object::tag::write::<impl gix_object::traits::WriteTo for gix_object::TagRef<'_>>::")]
+    n = 0
+    for label, pre in pairs:
+        got = {}
+        for which in ("size", "write_to"):
+            f = db.one(pre + which + "$")
+            reach = db.reachable([f.key], stop=lambda nm: not (nm.startswith("gix_object::") or nm.startswith("<gix_object::")))
+            fns = [g for g in db.by_crate["gix_object"] if g.key in reach or g.name in reach or g.name.startswith(f.name + "::{closure#")]
+            got[which] = sorted({c.name.split("::")[-1] for g in fns for c in g.calls() if SPLIT_FAMILY.search(c.name)})
+        if not got["size"] and not got["write_to"]:
+            continue
+        n += 1
+        chk.ob("size-and-writer-split-lines-alike", label, got["size"] == got["write_to"], "size() walks values with %s, write_to() with %s" % (got["size"], got["write_to"]),
+               key="line-splitter|%s" % label)
+    chk.floor("WriteTo impls that split multi-line values", n, 2)
